@@ -62,8 +62,10 @@ def load_cases(draw):
     text = T.render_flow(t)
     style = draw(st.sampled_from(['flow', 'block', 'block', 'literal', 'dq', 'markers', 'narrow']))
     deco = draw(st.sampled_from(['', '', 'crlf', 'bom', 'comment', 'cr', 'nel']))
+    # PyYAML reads streams in chunks of 4096 characters: documents longer than that
+    long = draw(st.sampled_from([None, None, None, None, 'list', 'list', 'comment']))
     return {'kind': 'load', 'model': spec, 'text': text, 'style': style, 'deco': deco,
-            'src': origin.split(':')[0]}
+            'long': long, 'src': origin.split(':')[0]}
 
 
 @st.composite
@@ -82,6 +84,10 @@ def final_text(case):
     text = case['text']
     if 'style' not in case:
         return text
+    if case.get('long') == 'list':
+        # the document many times over, as the items of a list (see model_of)
+        k = 4700 // (len(text) + 2) + 2
+        text = '[' + ', '.join([text] * k) + ']'
     if case['style'] != 'flow':
         try:
             node = T.compose_raw(text)
@@ -100,7 +106,17 @@ def final_text(case):
         text = '﻿' + text
     elif d == 'comment':
         text = '# héllo wörld\n' + text + ' # trailing ☃\n'
+    if case.get('long') == 'comment':
+        # multi-byte characters across the chunk boundaries of a binary stream
+        text = '# ' + 'é☃' * 2060 + '\n' + text
     return text
+
+
+def model_of(case):
+    spec = case['model']
+    if case.get('long') == 'list' and 'style' in case:
+        spec = dict(spec, doc_type=['list', spec['doc_type']])
+    return spec
 
 
 POS = re.compile(r'line (\d+), column (\d+)')
@@ -135,10 +151,12 @@ def check(case, ctx):
 
 
 def check_load(case, ctx):
-    spec = case['model']
+    spec = model_of(case)
     m = models.build(spec)
     load = m.load
     text = final_text(case)
+    if len(text) > 4096:
+        ctx.count('load_document_longer_than_4096_characters')
     try:
         data = text.encode('utf-8')
     except UnicodeEncodeError:
